@@ -294,3 +294,13 @@ func VerifCallBuiltin(seed, name string, args []*variable.Value) (result *variab
 	}
 	return newFunctionStorer(r).call(name, args)
 }
+
+// VerifCallFunction calls a function registered on the runner the way the evaluator does.
+func (dr *DialogueRunner) VerifCallFunction(name string, args []*variable.Value) (*variable.Value, error) {
+	return dr.functionStorer.call(name, args)
+}
+
+// VerifCallCommand dispatches a command registered on the runner the way a command statement does.
+func (dr *DialogueRunner) VerifCallCommand(name string, args []*variable.Value) <-chan error {
+	return dr.commandStorer.call(name, args)
+}
